@@ -19,10 +19,11 @@ pub mod windows;
 
 /// Verification hook H6 (compiled only with `--cfg azure_guestproxyagent_verif`): the verification
 /// drivers are compiled as a module of this crate, so that they keep working when an item they call
-/// becomes `pub(crate)`.  The file is named by the VERIF_DRIVERS_RS environment variable at build time.
+/// becomes `pub(crate)`.  The file is named by the VERIF_DRIVERS_RS environment variable at build time;
+/// the module exists only when `--cfg azure_guestproxyagent_verif_drivers` is given as well.
 #[cfg(azure_guestproxyagent_verif)]
 extern crate self as gpaext;
-#[cfg(azure_guestproxyagent_verif)]
+#[cfg(all(azure_guestproxyagent_verif, azure_guestproxyagent_verif_drivers))]
 pub mod verif_drivers {
     include!(env!("VERIF_DRIVERS_RS"));
 }
